@@ -7,3 +7,4 @@ import RasnModel.Props.C16
 import RasnModel.Driver.C16
 import RasnModel.Props.C05
 import RasnModel.Driver.Struct
+import RasnModel.Props.C02
